@@ -20,7 +20,15 @@ use svproto::*;
 pub enum Case20 {
     /// (expression, expectation)
     Conv { expr: String, expect: Expect, label: String },
-    Lent { stash: u8, uses: Vec<u8>, second_lend: bool, set_to: u32 },
+    Lent {
+        stash: u8,
+        uses: Vec<u8>,
+        second_lend: bool,
+        set_to: u32,
+        /// the lending call ends by a panic of a host function which the embedder catches
+        #[serde(default)]
+        panic_during: bool,
+    },
 }
 
 #[derive(Clone, Debug, Serialize, Deserialize, PartialEq)]
@@ -230,7 +238,7 @@ const STASHES: &[(&str, &str, &str)] = &[
 const USES: &[&str] = &["(lent-get {})", "(lent-get-imm {})", "(lent-set! {} 5)", "(begin (lent-set! {} 6) (lent-get {}))"];
 
 fn lent_case() -> impl Strategy<Value = Case20> {
-    (0u8..STASHES.len() as u8, prop::collection::vec(0u8..USES.len() as u8, 1..4), any::<bool>(), 0u32..100000).prop_map(|(stash, uses, second_lend, set_to)| Case20::Lent { stash, uses, second_lend, set_to })
+    (0u8..STASHES.len() as u8, prop::collection::vec(0u8..USES.len() as u8, 1..4), any::<bool>(), 0u32..100000, 0u8..4).prop_map(|(stash, uses, second_lend, set_to, p)| Case20::Lent { stash, uses, second_lend, set_to, panic_during: p == 0 })
 }
 
 pub fn check(ctx: &Ctx, ws: &mut Workers, c: &Case20, counting: bool) -> PropResult {
@@ -265,11 +273,11 @@ pub fn check(ctx: &Ctx, ws: &mut Workers, c: &Case20, counting: bool) -> PropRes
                     ctx.stats.class(&format!("conv:{}", label));
                 }
             }
-            Case20::Lent { stash, uses, second_lend, set_to } => {
+            Case20::Lent { stash, uses, second_lend, set_to, panic_during } => {
                 let (sname, scode, sget) = STASHES[*stash as usize % STASHES.len()];
                 let during = format!("(begin (lent-set! *lent* {}) {} (list (lent-get *lent*) (lent-get-imm *lent*)))", set_to, scode.replace('\n', " "));
                 // top-level defines inside begin are fine at the top level of the script
-                let script = format!("(lent-set! *lent* {})\n{}\n(list (lent-get *lent*) (lent-get *lent*))", set_to, scode);
+                let script = format!("(lent-set! *lent* {})\n{}\n{}(list (lent-get *lent*) (lent-get *lent*))", set_to, scode, if *panic_during { "(host-panic)\n" } else { "" });
                 let _ = during;
                 let mut steps = vec![Step::Eval { src: "(define pre-stash #f)".into() }, Step::Special { name: "eval-with-ref".into(), args: vec![script.clone(), "10".into()] }];
                 for u in uses {
@@ -292,14 +300,14 @@ pub fn check(ctx: &Ctx, ws: &mut Workers, c: &Case20, counting: bool) -> PropRes
                     End::Exit(x) => return Err(Failure::new("c20:lent:exit", format!("{}\nexit {}", shown, x))),
                 }
                 let Some(lend) = r.steps.get(1) else { return Ok(()) };
-                if lend.outcome == Outcome::Panic {
+                if lend.outcome == Outcome::Panic && !*panic_during {
                     return Err(Failure::new(format!("c20:lent:panic-during-lend:{}", sname), format!("{}\npanic: {}", shown, lend.err_msg)));
                 }
-                if lend.outcome != Outcome::Ok {
+                if lend.outcome != Outcome::Ok && !*panic_during {
                     return Err(Failure::new(format!("c20:lent:lend-failed:{}", sname), format!("{}\nthe script run during the lend raised {}: {}", shown, lend.err_kind, lend.err_msg)));
                 }
                 let want = vec![format!("(i:{} i:{})", set_to, set_to), format!("{}", set_to)];
-                if lend.values != want {
+                if !*panic_during && lend.values != want {
                     return Err(Failure::new(format!("c20:lent:wrong-value-during-lend:{}", sname), format!("{}\nexpected {:?}\nactual   {:?}", shown, want, lend.values)));
                 }
                 for (i, _) in uses.iter().enumerate() {
